@@ -26,7 +26,7 @@ CHECK = {'rule': 'three case kinds around the real varutil.ReadArguments / argsc
                  'content lines, with a content line starting with the marker, without terminator; the exact surrounding white space of a heredoc '
                  "text that starts/ends with an empty/CR/VT/FF line; '=' inside a named value, positional arguments starting with '-', duplicate names",
                  'error presence only; error texts never compared'],
- 'essential_labels': {'all': ['arg-starts-with-escape',
+ 'essential_labels': {'all': ['loop-from-reader-second-command', 'loop-input-ends-inside-quote', 'arg-starts-with-escape',
                               'escape-outside-quotes',
                               'escaped-quote-in-quotes',
                               'quoted-blank',
